@@ -1,6 +1,15 @@
 import AgVerif.Model.Paths
+import AgVerif.Spec.Portable
+import AgVerif.Proof.PathsClean
+/-!
+C38 — cleaned file names are portable.  Model: `AgVerif.Paths.cleanFileName` (the FIXED
+clean_file_name of fixes/C38-clean-file-name-limits.diff; POSIX, force_nt = False).
+`isfile` is ANY predicate on paths (the file system), `fuel` any loop budget, `filename` and the
+replacement string ANY strings.  Every theorem speaks about the name part `(split r).2` of a result
+`r`, which by `same_directory` is exactly the cleaned name the function produced.
+-/
 namespace AgVerif.C38
-open AgVerif.Paths
+open AgVerif.Paths AgVerif.PathsClean AgVerif.Spec.Portable
 
 /-- the literal texts the hand-compiled model was derived from -/
 theorem gen_pins :
@@ -9,5 +18,96 @@ theorem gen_pins :
        ("sub", "[<>:\"/\\\\|?*\\x00-\\x1f]"), ("sub", "[ .]$"), ("sub", "[ .]$")]
     ∧ Gen.Paths.suffixFormat = "_{}" ∧ Gen.Paths.pathMaxLength = 230 ∧ Gen.Paths.extDivisor = 2 :=
   ⟨rfl, rfl, rfl, rfl⟩
+
+/-- the generated character classes contain everything the specification forbids, and the class the
+    replacement string is checked against contains both other classes -/
+theorem classes_cover_spec (c : Char) :
+    (Forbidden c → reservedChar c = true) ∧ (BadEnd c → trailingChar c = true) ∧
+    (reservedChar c = true → badReplaceChar c = true) ∧ (trailingChar c = true → badReplaceChar c = true) :=
+  ⟨reserved_of_forbidden c, trailing_of_badEnd c, bad_of_reserved c, bad_of_trailing c⟩
+
+/-- the result stays in the input's directory, and its name part is the cleaned name -/
+theorem same_directory (isfile : Path → Bool) (fuel : Nat) (filename : Path) (unique : Bool)
+    (rep : List Char) (r : Path) (h : cleanFileName isfile fuel filename unique rep = .ok r) :
+    (split r).1 = (split filename).1 ∧ r = join2 (split filename).1 (split r).2 := by
+  obtain ⟨_, f, hr, hc, _⟩ := cleanFileName_ok _ _ _ _ _ _ h
+  have := split_join2 filename f (sep_not_mem_of_clean f hc)
+  rw [hr, this]; exact ⟨rfl, rfl⟩
+
+/-- no reserved and no control character in the name -/
+theorem no_reserved_chars (isfile : Path → Bool) (fuel : Nat) (filename : Path) (unique : Bool)
+    (rep : List Char) (r : Path) (h : cleanFileName isfile fuel filename unique rep = .ok r) :
+    NoForbidden (split r).2 := by
+  obtain ⟨_, f, hr, hc, _⟩ := cleanFileName_ok _ _ _ _ _ _ h
+  have := split_join2 filename f (sep_not_mem_of_clean f hc)
+  rw [hr, this]; exact noForbidden_of_clean f hc
+
+/-- the name does not end with a space or a dot -/
+theorem not_trailing_space_dot (isfile : Path → Bool) (fuel : Nat) (filename : Path) (unique : Bool)
+    (rep : List Char) (r : Path) (h : cleanFileName isfile fuel filename unique rep = .ok r) :
+    GoodEnd (split r).2 := by
+  obtain ⟨_, f, hr, hc, ht, _⟩ := cleanFileName_ok _ _ _ _ _ _ h
+  have := split_join2 filename f (sep_not_mem_of_clean f hc)
+  rw [hr, this]; exact goodEnd_of_noTrail f ht
+
+/-- the name has at most 230 characters (also after the uniqueness suffix, for any number of files) -/
+theorem length_le_230 (isfile : Path → Bool) (fuel : Nat) (filename : Path) (unique : Bool)
+    (rep : List Char) (r : Path) (h : cleanFileName isfile fuel filename unique rep = .ok r) :
+    (split r).2.length ≤ 230 := by
+  obtain ⟨_, f, hr, hc, _, hl, _⟩ := cleanFileName_ok _ _ _ _ _ _ h
+  have := split_join2 filename f (sep_not_mem_of_clean f hc)
+  rw [hr, this]; exact hl
+
+/-- with uniqueness requested the result does not name an existing file -/
+theorem unique_fresh (isfile : Path → Bool) (fuel : Nat) (filename : Path)
+    (rep : List Char) (r : Path) (h : cleanFileName isfile fuel filename true rep = .ok r) :
+    isfile r = false := by
+  obtain ⟨_, f, _, _, _, _, hu⟩ := cleanFileName_ok _ _ _ _ _ _ h
+  exact hu rfl
+
+/-- the uniqueness loop terminates: when the existing files are among a list `files` of fewer than
+    10^100 paths, `files.length + 2` tests suffice (the candidates are pairwise different, pigeonhole);
+    the function then returns a name for every input and every allowed replacement string -/
+theorem unique_terminates (isfile : Path → Bool) (files : List Path)
+    (hfiles : ∀ p, isfile p = true → p ∈ files) (hsmall : files.length < 10 ^ 100)
+    (fuel : Nat) (hfuel : files.length + 2 ≤ fuel) (filename : Path) (unique : Bool)
+    (rep : List Char) (hrep : validReplace rep = true) :
+    ∃ r, cleanFileName isfile fuel filename unique rep = .ok r := by
+  have hr := goodRep_of_valid rep hrep
+  unfold cleanFileName
+  simp only [hrep, Bool.not_true, Bool.false_eq_true, if_false]
+  cases unique with
+  | false => exact ⟨_, rfl⟩
+  | true =>
+    simp only [if_true]
+    have := uniqueLoop_terminates isfile files hfiles hsmall (split filename).1 rep
+      (cleanBase rep (split filename).2) hr (clean_cleanBase _ _ hr) (noTrail_cleanBase _ _ hr) fuel hfuel
+    cases hl : uniqueLoop isfile (split filename).1 rep (cleanBase rep (split filename).2) fuel 0
+        (cleanBase rep (split filename).2) with
+    | none => exact absurd hl this
+    | some f => exact ⟨_, rfl⟩
+
+/-- a replacement string that is empty or contains a reserved character, a space or a dot is refused -/
+theorem bad_replace_refused (isfile : Path → Bool) (fuel : Nat) (filename : Path) (unique : Bool)
+    (rep : List Char) (h : validReplace rep = false) :
+    cleanFileName isfile fuel filename unique rep = .valueError := by
+  simp [cleanFileName, h]
+
+/-! non-vacuity: concrete hostile inputs run through the model -/
+
+-- D21 (1): an extension of 300 characters; the result is cut like a name without extension
+example : (cleanFileName (fun _ => false) 2 ('a' :: '.' :: List.replicate 300 'b') false ['_']) =
+    .ok ('a' :: '.' :: List.replicate 228 'b') := by decide +kernel
+-- D21 (2): the cut exposes a space at position 230
+example : (cleanFileName (fun _ => false) 2 (List.replicate 229 'a' ++ [' ', 'b']) false ['_']) =
+    .ok (List.replicate 229 'a' ++ ['_']) := by decide +kernel
+-- D21 (3): a 230 character name that exists: the suffix replaces the end of the name
+example : (cleanFileName (fun p => p == 'd' :: '/' :: List.replicate 230 'a') 3
+      ('d' :: '/' :: List.replicate 230 'a') true ['_']) =
+    .ok ('d' :: '/' :: List.replicate 228 'a' ++ ['_', '0']) := by decide +kernel
+-- reserved characters, a device name, a trailing dot
+example : (cleanFileName (fun _ => false) 2 "x/COM1<a>:b. ".toList false ['_']) = .ok "x/COM1_a__b. _".toList := by
+  decide
+example : validReplace ['_'] = true ∧ validReplace [] = false ∧ validReplace ['_', '/'] = false := by decide
 
 end AgVerif.C38
